@@ -1,8 +1,174 @@
 import Driver.Store
+import NixModel.Pure.DimLink
+open Lean Nix.Store Nix.DimLink
 
+/-! C05 driver: the structural model's line protocol (`Driver.Store.step`) on the graph part of the
+state, plus arrays with content, dimension descriptors and dimension links (`Pure/DimLink.lean`). -/
 namespace Driver.C05
 
-/-- C05 is decided on the structural (HDF5 graph) model: same driver for C02 C03 C04 C05 C12 C20 -/
-def main : IO Unit := Driver.Store.main
+def parseRat (j : Json) : Option Rat :=
+  match j with
+  | .str s =>
+    match s.splitOn "/" with
+    | [n, d] => match n.toInt?, d.toNat? with
+      | some a, some b => if b == 0 then none else some (mkRat a b)
+      | _, _ => none
+    | [n] => n.toInt?.map fun a => (a : Rat)
+    | _ => none
+  | .num _ => (jInt? j).map fun a => (a : Rat)
+  | _ => none
+
+def parseRats (j : Json) : Option (List Rat) :=
+  match j with
+  | .arr a => a.toList.mapM parseRat
+  | _ => none
+
+def parseStrs (j : Json) : Option (List String) :=
+  match j with
+  | .arr a => a.toList.mapM fun x => match x with | .str s => some s | _ => none
+  | _ => none
+
+def parseInts (j : Json) : Option (List Int) :=
+  match j with
+  | .arr a => a.toList.mapM jInt?
+  | _ => none
+
+def parseNats (j : Json) : Option (List Nat) := (parseInts j).map fun l => l.map Int.toNat
+
+def optStr (j : Json) : Option String := match j with | .str s => some s | _ => none
+
+def jOptStr (o : Option String) : Json := match o with | some s => Json.str s | none => Json.null
+
+def jRats (l : List Rat) : Json := Json.arr (l.map fun r => Json.str (ratStr r)).toArray
+
+def exJson {α : Type} (r : Except Nix.Err α) (f : α → Json) : Json :=
+  match r with
+  | .ok v => f v
+  | .error e => Json.mkObj [("err", Json.str e.toString)]
+
+def applyS (s : DState) (r : Except Nix.Err DState) : DState × Json :=
+  match r with
+  | .ok s' => (s', ok Json.null)
+  | .error e => (s, err e)
+
+def parseSpec (j : Json) : Option DimSpec :=
+  match j.getObjVal? "kind" with
+  | .ok (.str "set") =>
+    match j.getObjVal? "labels" with
+    | .ok (.arr a) => (parseStrs (.arr a)).map fun l => DimSpec.set (some l)
+    | _ => some (.set none)
+  | .ok (.str "sampled") => some .sampled
+  | .ok (.str "range") =>
+    let label := match j.getObjVal? "label" with | .ok x => optStr x | _ => none
+    let unit := match j.getObjVal? "unit" with | .ok x => optStr x | _ => none
+    match j.getObjVal? "ticks" with
+    | .ok (.arr a) => (parseRats (.arr a)).map fun l => DimSpec.range (some l) label unit
+    | _ => some (.range none label unit)
+  | _ => none
+
+/-- everything an entity handle shows: identity, the string attributes, the stored data -/
+def readEntity (s : DState) (k : Nat) : Json :=
+  let g := s.g
+  Json.mkObj [
+    ("ident", Driver.Store.ident g k),
+    ("type", jOptStr (g.getAttr k "type")),
+    ("definition", jOptStr (g.getAttr k "definition")),
+    ("unit", jOptStr (g.getAttr k "unit")),
+    ("label", jOptStr (g.getAttr k "label")),
+    ("data", match dataOf s k with
+      | some d => Json.mkObj [("shape", Json.arr (d.shape.map fun (n : Nat) => Json.num (JsonNumber.fromNat n)).toArray), ("vals", jRats d.vals)]
+      | none => Json.null)]
+
+def readDim (s : DState) (dn : Nat) : Json :=
+  let g := s.g
+  let kind := kindOf g dn
+  let ln := g.child? dn "link"
+  Json.mkObj [
+    ("kind", Json.str kind),
+    ("has_link", Json.bool (hasLink g dn)),
+    ("is_alias", if kind == kDimRange then Json.bool (isAlias s dn) else Json.null),
+    ("ticks", if kind == kDimRange then exJson (readTicks s dn) jRats else Json.null),
+    ("labels", if kind == kDimSet then
+        exJson (readLabels s dn) fun l => match l with
+          | .strs x => Json.mkObj [("strs", Json.arr (x.map Json.str).toArray)]
+          | .nums x => Json.mkObj [("nums", jRats x)]
+      else Json.null),
+    ("unit", if kind == kDimSet then Json.null else exJson (readDimAttr s dn "unit") jOptStr),
+    ("label", exJson (readDimAttr s dn "label") jOptStr),
+    ("link_id", match ln with | some l => jOptStr (g.entityId l) | none => Json.null),
+    ("index", match ln.bind (look s.index) with
+      | some iv => Json.arr (iv.map fun i => Json.num (JsonNumber.fromInt i)).toArray
+      | none => Json.null),
+    ("target", match ln, linkTarget g dn with
+      | some _, some t => Driver.Store.ident g t
+      | some _, none => Json.str "dangling"
+      | none, _ => Json.null)]
+
+def storeOps : List String :=
+  ["noop", "create_block", "create_section", "create", "create_property", "create_feature", "del", "append",
+   "set_role", "set_attr", "len", "list", "get", "has", "role", "dump"]
+
+def step (s : DState) (j : Json) : DState × Json :=
+  let g := s.g
+  match (jArr j).toList with
+  | [.str "reset"] => ({}, ok Json.null)
+  | [.str "create_da", pj, nm, .str ty, shj, vj] =>
+    match Driver.Store.parsePath pj, Driver.Store.parseName g nm, parseNats shj, parseRats vj with
+    | some p, some name, some sh, some vs => applyS s (createArray s p name ty sh vs)
+    | _, _, _, _ => (s, bad "args")
+  | [.str "da_write", pj, vj] =>
+    match Driver.Store.parsePath pj, parseRats vj with
+    | some p, some vs => applyS s (writeData s p vs)
+    | _, _ => (s, bad "args")
+  | [.str "read", pj] =>
+    match (Driver.Store.parsePath pj).bind fun p => resolve g rootLoc p with
+    | some l => (s, ok (readEntity s l.key))
+    | none => (s, bad "path")
+  | [.str "dim_append", pj, sj] =>
+    match Driver.Store.parsePath pj, parseSpec sj with
+    | some p, some spec => applyS s (appendDim s p spec)
+    | _, _ => (s, bad "args")
+  | [.str "dim_link", pj, ij, tj, ivj] =>
+    match Driver.Store.parsePath pj, jInt? ij, Driver.Store.resolveKey g tj, parseInts ivj with
+    | some p, some i, some t, some iv => applyS s (linkDataArray s p i.toNat t iv)
+    | _, _, _, _ => (s, bad "args")
+  | [.str "dim_unlink", pj, ij] =>
+    match Driver.Store.parsePath pj, jInt? ij with
+    | some p, some i => applyS s (removeLink s p i.toNat)
+    | _, _ => (s, bad "args")
+  | [.str "dim_set_ticks", pj, ij, tj] =>
+    match Driver.Store.parsePath pj, jInt? ij, parseRats tj with
+    | some p, some i, some ts => applyS s (setTicks s p i.toNat ts)
+    | _, _, _ => (s, bad "args")
+  | [.str "dim_set_labels", pj, ij, lj] =>
+    match Driver.Store.parsePath pj, jInt? ij, parseStrs lj with
+    | some p, some i, some ls => applyS s (setLabels s p i.toNat ls)
+    | _, _, _ => (s, bad "args")
+  | [.str "dim_set_attr", pj, ij, .str attr, v] =>
+    match Driver.Store.parsePath pj, jInt? ij with
+    | some p, some i => applyS s (setDimAttr s p i.toNat attr (optStr v))
+    | _, _ => (s, bad "args")
+  | [.str "dim_read", pj, ij] =>
+    match Driver.Store.parsePath pj, jInt? ij with
+    | some p, some i =>
+      match dimAt s p i.toNat with
+      | .ok dn => (s, ok (readDim s dn))
+      | .error _ => (s, bad "no such dimension")
+    | _, _ => (s, bad "args")
+  | [.str "dim_count", pj] =>
+    match Driver.Store.parsePath pj with
+    | some p =>
+      match arrayAt s p with
+      | .ok a => (s, ok (Json.num (dimCount g a)))
+      | .error _ => (s, bad "no such array")
+    | none => (s, bad "args")
+  | .str opname :: _ =>
+    if storeOps.contains opname then
+      let (g', out) := Driver.Store.step g j
+      ({ s with g := g' }, out)
+    else (s, bad "C05: unknown op")
+  | _ => (s, bad "C05: unknown op")
+
+def main : IO Unit := loop ({} : DState) step
 
 end Driver.C05
